@@ -1,4 +1,5 @@
 import ZmqVerif.Model.Sockets
+import ZmqVerif.Lemmas.WorldSubOp
 /-!
 # C13 — a SUB socket's subscriptions reach every peer, including late joiners
 
@@ -139,5 +140,38 @@ theorem C13_inv_partial (s : St) (h : Agrees s) : Agrees (joinRegister s (joinSn
 /-- non-vacuity: `sub a; sub a; unsub a` with an early peer leaves nobody subscribed -/
 example : (([Op.join, .sub [97], .sub [97], .unsub [97], .join].foldl step {}).wires.map
     (fun w => told w [97])) = [0, 0] := by decide
+
+/-! ### socket level: the walk over the peers, seen from one peer's connection -/
+
+open Zmq.W in
+/-- **One poll of `subscribe` / `unsubscribe`, seen from ONE registered peer** (`SubInv`: beyond `base` the peer's
+connection has been handed nothing while it is still to be told, what the `send` in progress has handed over while it
+is being told, and — once it has been dealt with — the COMPLETE announcement unless a write failed).  Kept by every
+poll, however many peers the call gets through in it and whatever the OTHER peers' connections do (back-pressure,
+write errors, peers that vanished); when the call completes without error, this peer's outgoing stream is `base`
+followed by the complete announcement — exactly once, whole.  Needs only that the peer shares its connection with no
+other peer and that the table's keys are distinct (`C13_world_subop_start`). -/
+theorem C13_world_subop_poll (fuel : Nat) (w : World) (sid : Nat) (isSub : Bool) (topic : Bytes) (k : Ident) (p : Nat) (base : Bytes)
+    (todo : List Ident) (cur : Option (Ident × SendSt)) (failed : Bool)
+    (hinv : SubInv w sid k p base (encodeMsg (subsMsg isSub topic)) todo cur failed)
+    (w' : World) (f' : FutSt) (o : POut)
+    (h : subOpPoll fuel w sid isSub topic true todo cur failed = (w', f', o)) :
+    match (generalizing := false) f', o with
+    | .subOp _ _ _ _ todo' cur' failed', .pending =>
+        SubInv w' sid k p base (encodeMsg (subsMsg isSub topic)) todo' cur' failed'
+    | _, .ready .okUnit => ∃ s' wr', getSock w' sid = some s' ∧ ilookup s'.peers k = some wr' ∧ wr'.pipe = p ∧
+        outOf w'.pipes wr' = base ++ encodeMsg (subsMsg isSub topic)
+    | _, .ready (.err _) => True
+    | _, _ => False :=
+  subOpPoll_spec fuel w sid isSub topic k p base todo cur failed hinv w' f' o h
+
+open Zmq.W in
+/-- the invariant holds when the walk starts (the set has just changed): every registered peer is still to be told -/
+theorem C13_world_subop_start (w : World) (sid : Nat) (s : Socket) (k : Ident) (wr : Wr) (enc : Bytes) (subs' : List Bytes)
+    (hk : ilookup s.peers k = some wr)
+    (hdist : ∀ j wr2, j ≠ k → ilookup s.peers j = some wr2 → wr2.pipe ≠ wr.pipe)
+    (hnd : (s.peers.map (·.1)).Nodup) :
+    SubInv (setSock w sid { s with subs := subs' }) sid k wr.pipe (outOf w.pipes wr) enc (s.peers.map (·.1)) none false :=
+  SubInv.start w sid s k wr enc subs' hk hdist hnd
 
 end Zmq.C13
